@@ -7,7 +7,7 @@ ASSUMPTIONS = ["float64 rounding outside the theorems; inputs with condition num
 def cases(seed, tier):
     rng = gen.rng_path(seed, "C10")
     out = []
-    grid = [("full", 1, 3, 2, 3), ("full", 3, 3, 3, 1), ("full", 1, 1, 2, 2), ("diag", 1, 2, 1, 3), ("diag", 2, 2, 2, 2),
+    grid = [("full", 1, 4, 1, 3), ("diag", 1, 3, 1, 2), ("full", 1, 3, 2, 3), ("full", 3, 3, 3, 1), ("full", 1, 1, 2, 2), ("diag", 1, 2, 1, 3), ("diag", 2, 2, 2, 2),
             ("identity", 1, 3, 2, 2), ("identity", 3, 3, 1, 1), ("identitydiag", 1, 4, 3, 3), ("identitydiag", 2, 2, 2, 2)]
     for _ in range(3 if tier == "quick" else 20):
         cls = COND_CLASSES[int(rng.integers(0, 4))]
